@@ -31,20 +31,21 @@ func humanizeInt[T IntType](v T) string {
 	}
 
 	negative := v < 0
-	if negative {
-		v = -v
-	}
 
 	ci := 0
 	idx := len(buf) - 1
-	for v > 0 {
+	for v != 0 {
 		if ci == 3 {
 			buf[idx] = baseSeparator
 			ci = 0
 			idx--
 		}
 
-		buf[idx] = byte('0' + (v % 10))
+		digit := v % 10
+		if digit < 0 { // v is not negated up front: the most negative value has no positive counterpart
+			digit = -digit
+		}
+		buf[idx] = byte('0' + digit)
 		idx--
 		ci++
 		v /= 10
